@@ -117,9 +117,11 @@ pub fn view_json(u: &Universe, v: &View) -> Value {
 struct Fail {
     key: String,
     msg: String,
+    /// further properties whose predicate the same failure breaks
+    also: Vec<String>,
 }
 fn fail(key: &str, msg: String) -> Fail {
-    Fail { key: key.to_string(), msg }
+    Fail { key: key.to_string(), msg, also: vec![] }
 }
 
 /// Independent frontier: committed commands with no committed descendant, sorted by id.
@@ -306,11 +308,25 @@ fn run_case(case: &Value, args: &Args, rng: &mut Rng) -> Result<(Value, u64), Fa
     }
     // C02 on the fact state
     if let Some(m) = check_once(&u, &after.seq, &after.reachable) {
-        return Err(fail("C02:once", format!("{m}; {obs}")));
+        let mut f = fail("C02:once", format!("{m}; {obs}"));
+        if after.seq != exp_seq {
+            // the fact state also differs from the reference braid
+            f.also.push("C03:seq".into());
+            if exp_heads.len() >= 2 {
+                f.also.push("C04:multi-head-facts".into());
+            }
+        }
+        return Err(f);
     }
     // C03: the reference braid
     if after.seq != exp_seq {
-        return Err(fail("C03:seq", format!("fact state differs from the reference braid: expected seq {exp_seq:?}; {obs}")));
+        let mut f = fail("C03:seq", format!("fact state differs from the reference braid: expected seq {exp_seq:?}; {obs}"));
+        if exp_heads.len() >= 2 {
+            // C04: what queries see on a multi-head graph must equal the collapse's state,
+            // which the spec proves equal to the N-way reference braid (LazyMergeEquiv)
+            f.also.push("C04:multi-head-facts".into());
+        }
+        return Err(f);
     }
     let exp_kv: Vec<(String, String)> =
         if exp_k == 0 { vec![] } else { vec![("k".into(), u.chains[&exp_k][0].label())] };
@@ -689,7 +705,7 @@ pub fn run(args: &Args) {
                 if f.key.starts_with("tool:") {
                     vrt::die(&format!("case {i}: {}: {}", f.key, f.msg));
                 }
-                out.fail(i, 0, &f.key, &f.msg, Value::Null)
+                out.emit(json!({"i": i, "ok": false, "step": 0, "key": f.key, "msg": f.msg, "also": f.also, "obs": Value::Null}))
             }
             Err(p) => out.fail(i, 0, "C03:panic", &format!("runtime panicked: {p}"), Value::Null),
         }
